@@ -231,15 +231,18 @@ func ruleR10() *Rule {
 			alwaysKeys := map[string]bool{}
 			if convert != nil {
 				// keys of the args map literal: MapUpdate with constant string keys on a fresh MakeMap
-				eachInstr(convert, func(_ *ssa.BasicBlock, in ssa.Instruction) {
-					if mu, ok := in.(*ssa.MapUpdate); ok {
-						if _, isMake := mu.Map.(*ssa.MakeMap); isMake {
-							if k, ok := constString(mu.Key); ok {
-								alwaysKeys[k] = true
+				// (in convert itself or in a helper extracted from it)
+				for _, f := range withHelpers(c.p, convert) {
+					eachInstr(f, func(_ *ssa.BasicBlock, in ssa.Instruction) {
+						if mu, ok := in.(*ssa.MapUpdate); ok {
+							if _, isMake := mu.Map.(*ssa.MakeMap); isMake {
+								if k, ok := constString(mu.Key); ok {
+									alwaysKeys[k] = true
+								}
 							}
 						}
-					}
-				})
+					})
+				}
 			}
 
 			for _, t := range types_ {
@@ -276,7 +279,7 @@ func ruleR10() *Rule {
 					}
 				}
 				for i := 0; i < st.NumFields(); i++ {
-					f := st.Field(i).Name()
+					f := canonFieldName(t.name, st, i)
 					key := t.name + "/field/" + f
 					fq := t.name + "." + f
 					switch {
@@ -295,7 +298,7 @@ func ruleR10() *Rule {
 				}
 				// element level
 				for i := 0; i < st.NumFields(); i++ {
-					f := st.Field(i).Name()
+					f := canonFieldName(t.name, st, i)
 					if _, isSlice := st.Field(i).Type().Underlying().(*types.Slice); !isSlice {
 						continue
 					}
